@@ -131,6 +131,40 @@ def pieces : List Leaf → List Val → Option (List (Nat × Bytes))
 def image (ls : List Leaf) (vs : List Val) : Option Bytes :=
   (pieces ls vs).map fun ps => (List.range 64).map (imageByte ps)
 
+/-! ### round trip (C05 / C18): what decoding the encoding of an in-domain value returns -/
+
+/-- The value that comes back. It is the value itself except for the observational equalities
+    of DESIGN §6: an IPv4 address comes back in Go's 16-byte form of the same address; a pointer
+    to the zero ("no value") date / date-time comes back as the nil pointer, which is the other
+    spelling of "no value"; a nil `*HHmm` — outside the domain, the statement names only the
+    nil-tolerant date and time types — comes back as a pointer to 00:00. `none` = the value is
+    outside the domain of its kind. -/
+def back : Kind → Val → Option Val
+  | .ipv4, .ip bs => (wire .ipv4 (.ip bs)).map fun b => .ip ([0, 0, 0, 0, 0, 0, 0, 0, 0, 0, 0xff, 0xff] ++ b)
+  | .datePtr, .datePtr (some none) => some (.datePtr none)
+  | .dateTimePtr, .dateTimePtr (some none) => some (.dateTimePtr none)
+  | .hhmmPtr, .hhmmPtr none => some (.hhmmPtr (some ⟨0, 0⟩))
+  | k, v => (wire k v).map fun _ => v
+
+/-- per leaf: header fields read back as the byte their tag fixes (SOM is never read back: 0);
+    an untagged MsgType field must be 0 to be accepted again -/
+def backLeaf : Leaf → Val → Option Val
+  | .skip, _ => some (.u32 0)
+  | .som _, _ => some (.u8 0)
+  | .msgType (some t), _ => (tagValue t).map fun n => .u8 (UInt8.ofNat n)
+  | .msgType none, .u8 v => if v = 0 then some (.u8 0) else none
+  | .msgType none, _ => none
+  | .at _ .u8 (some t), _ => (tagValue t).map fun n => .u8 (UInt8.ofNat n)
+  | .at _ k _, v => back k v
+
+def backAll : List Leaf → List Val → Option (List Val)
+  | [], [] => some []
+  | l :: ls, v :: vs =>
+    (match backLeaf l v, backAll ls vs with
+     | some w, some ws => some (w :: ws)
+     | _, _ => none)
+  | _, _ => none
+
 /-! ### decoding relation (C02 / C18): what a reader of a field may return -/
 
 inductive Read where
